@@ -214,6 +214,7 @@ def _ref(repo, func: str):
 
 def r3(ctx) -> None:
     repo = ctx.repo
+    lib.check_no_overflowing_exp(ctx, "C07-R3", [fi for fi in repo.functions.values() if fi.rel in (DOA, PFD, COH, SHP)], 3)
     # no-IRF oscillation
     f = ctx.fn(DOA, "calculate_damped_oscillation_matrix_no_irf")
     fl = lib.flow(f, repo)
@@ -313,6 +314,8 @@ def r3(ctx) -> None:
 
 def r4(ctx) -> None:
     repo = ctx.repo
+    lib.check_no_loop_escape(ctx, "C07-R4", ("glotaran/builtin/megacomplexes/coherent_artifact/", "glotaran/builtin/megacomplexes/damped_oscillation/",
+                                              "glotaran/builtin/megacomplexes/pfid/", "glotaran/builtin/megacomplexes/spectral/"), 3)
     cm = ctx.fn(COH, "CoherentArtifactMegacomplex.calculate_matrix")
     g = [n for n in lib.nodes(cm, ast.If) if "self.order" in norm(n.test) and n.body and isinstance(n.body[-1], ast.Raise)]
     ok = len(g) == 1 and norm(g[0].test).replace(" ", "") in ("not1<=self.order<=3", "self.order<1orself.order>3", "not(1<=self.order<=3)")
@@ -340,6 +343,32 @@ def r4(ctx) -> None:
     oi = [c for c in lib.calls(cm) if norm(c.func) == "_calculate_coherent_artifact_matrix_on_index"]
     ok = len(oi) == 1 and [norm(a) for a in oi[0].args] == ["matrix", "center", "width", "model_axis", "self.order"]
     ctx.ob("C07-R4", "artifact/kernel-arguments", ok, cm, oi[0] if oi else cm.node, "(matrix, centre, width, time axis, order)")
+    # index dependent branch: centres and widths are collected per global index from one get_irf_parameter call each
+    kc = [x for x in lib.calls(cm) if norm(x.func) == "_calculate_coherent_artifact_matrix"]
+    loops = [lp for lp in lib.nodes(cm, ast.For) if isinstance(lp.iter, ast.Call) and norm(lp.iter.func) == "range" and norm(lp.iter.args[0]) == "global_axis.size"
+             and isinstance(lp.target, ast.Name)]
+    ok = False
+    trace = []
+    if len(kc) == 1 and len(loops) == 1 and len(kc[0].args) >= 3:
+        lp, pos = loops[0], loops[0].target.id
+        got = []
+        for k, arg in ((0, kc[0].args[1]), (1, kc[0].args[2])):
+            a = fl.inline(arg, kc[0])
+            inner = a.args[0] if isinstance(a, ast.Call) and norm(a.func) in ("np.asarray", "np.array") and a.args else a
+            good = False
+            if isinstance(inner, ast.Name):
+                apps = [c_ for c_ in lib.method_calls(cm, "append") if norm(c_.func.value) == inner.id]
+                good = len(apps) == 1 and lib.is_inside(apps[0], lp) and lib.field_of(lib.stmt_of(apps[0]), lp) == "body" and len(apps[0].args) == 1
+                if good:
+                    t = fl.term(apps[0].args[0], lib.stmt_of(apps[0]))
+                    call_t = fl.term(ast.parse(f"self.get_irf_parameter(irf, {pos}, global_axis)", mode="eval").body, lib.stmt_of(apps[0]))
+                    from glint.terms import Poly
+                    good = t == Poly.atom(("item", call_t.key(), (k,)))
+                    trace.append(f"{inner.id}.append({norm(apps[0].args[0])}) = element {k} of get_irf_parameter(irf, {pos}, global_axis): {good}")
+            got.append(good)
+        ok = all(got)
+    ctx.ob("C07-R4", "artifact/centres-and-widths-per-index", ok, cm, kc[0] if kc else cm.node,
+           "index i of the kernel's centre and width arrays is the (centre, width) pair of get_irf_parameter(irf, i, global_axis)", trace)
     kk = ctx.fn(COH, "_calculate_coherent_artifact_matrix")
     c = [x for x in lib.calls(kk) if norm(x.func) == "_calculate_coherent_artifact_matrix_on_index"]
     ok = len(c) == 1 and [norm(a) for a in c[0].args] == ["matrix[i]", "centers[i]", "widths[i]", "model_axis", "order"]
